@@ -120,6 +120,7 @@ type vSched struct {
 	untilPt     int32
 	untilOcc    int
 	stallLifted bool
+	stopped     int32 // Run has ended (or given up): what the released goroutines do from here on is not part of the execution
 	gateFetched bool // the point between epoll_wait and the handler is a schedule point (slot-level harness)
 	arrivals    map[string]int                                 // (actor, pt) -> arrivals so far
 	gateLog     [][2]interface{}                               // (actor, pt#occ) of every step taken
@@ -245,7 +246,13 @@ func vTraceOnly(pt int32) bool {
 	return false
 }
 
+// dead: the scheduler has stopped; goroutines it released run on by themselves and are no longer recorded
+func (s *vSched) dead() bool { return atomic.LoadInt32(&s.stopped) == 1 }
+
 func (s *vSched) hook(pt int32, obj unsafe.Pointer, a, b int64) {
+	if s.dead() && vGID() != s.mainGID {
+		return
+	}
 	// trace points are recorded only for this scenario's own goroutines (a goroutine left over from an
 	// earlier scenario may still be finishing its teardown)
 	if s.emit != nil && vTraceOnly(pt) {
@@ -406,6 +413,7 @@ func (s *vSched) Run() {
 		verifHook = s.wrapHook
 	}
 	defer func() {
+		atomic.StoreInt32(&s.stopped, 1)
 		s.active = false
 		if s.onStop != nil {
 			s.onStop()
